@@ -55,8 +55,9 @@ Fixpoint trace_r (cs : list (Z * rconn)) (ops : list rop) : list Z :=
 (* composite serviceAll, order generated from the source *)
 Definition obs_p (cs : list (Z * pconn)) : list Z :=
   flat_map (fun kc => let c := snd kc in
-     fst kc :: zb (palive c) :: (if palive c then eb (pbuf c) ++ [zb (pcut c)] else [0; 1]) ++ elb (pdel c)) cs.
-Fixpoint trace_p (cs : list (Z * pconn)) (passes : list (list (Z * list rres))) : list Z :=
+     let live := pacc c && palive c in
+     fst kc :: zb live :: (if live then eb (pbuf c) ++ [zb (pcut c)] else [0; 1]) ++ elb (pdel c)) cs.
+Fixpoint trace_p (cs : list (Z * pconn)) (passes : list ppass) : list Z :=
   match passes with [] => [] | o :: os => let cs' := p_pass server_all_order cs o in obs_p cs' ++ trace_p cs' os end.
 (* client serviceAll: rxPkts are consumed by serviceRxPkts, deliveries = cumulative rxpk *)
 Fixpoint l_eqb (a b : list Z) : bool :=
@@ -229,7 +230,10 @@ def gen(ctx):
     try:
         text, steps = translate.translate(open(src).read())
     except (translate.Unsupported, SyntaxError) as ex:
-        ctx.tie_broken("translator", "stacking.py serviceAll is outside the translated fragment", repr(ex))
+        ctx.tie_broken("translator", "stacking.py serviceAll/serviceConnects is outside the translated fragment", repr(ex))
+        # keep the model well defined (canonical order) so that the histories still run and the
+        # search can exhibit a concrete failing one; the tie above is already recorded as broken
+        ctx.write_gen("C36Order.v", translate.CANONICAL)
         return None
     ctx.write_gen("C36Order.v", text)
     ctx.extra["server_all_order"] = steps
@@ -376,28 +380,39 @@ def run(ctx):
     # ---------------- composite serviceAll (server): send-then-close within one pass ----------------
     def add_sall(cas, passes, kind):
         obs, got = harness.run_server_all(cas, passes)
-        dclose = any(any(r[0] == 'D' for r in o) and any(r[0] == 'X' for r in o) for ps in passes for o in ps.values())
+        dclose = any(any(r[0] == 'D' for r in o) and any(r[0] == 'X' for r in o) for _, ps in passes for o in ps.values())
+        late = any(arr and i > 0 for i, (arr, _) in enumerate(passes))
         ctx.case({"side": "server-all", "cas": cas,
-                  "passes": [{k: [list(r[1]) if r[0] == 'D' else r[0] for r in v] for k, v in ps.items()} for ps in passes]},
-                 nontrivial=dclose, kind=kind)
-        cps = clist([clist(["(%s, %s)" % (cz(k), c_rorc(v)) for k, v in ps.items()], "(Z * list rres)") for ps in passes],
-                    "(list (Z * list rres))")
+                  "passes": [[arr, {k: [list(r[1]) if r[0] == 'D' else r[0] for r in v] for k, v in ps.items()}] for arr, ps in passes]},
+                 nontrivial=dclose or late, kind=kind)
+        cps = clist(["(%s, %s)" % (clist([cz(a) for a in arr], "Z"),
+                                   clist(["(%s, %s)" % (cz(k), c_rorc(v)) for k, v in ps.items()], "(Z * list rres)"))
+                     for arr, ps in passes], "ppass")
         cases.append(("(trace_p (p_init %s) %s)" % (clist([cz(c) for c in cas], "Z"), cps),
                       clist([cz(x) for x in flat_server_all(obs)], "Z")))
         metas.append(("server-all", (cas, passes), (obs, got), None))
 
-    if steps is not None:
-        aalpha = [('D', b"a"), ('D', b"bc"), ('N',), ('X',)]
-        for n in range(0, ctx.n(3, 4) + 1):
-            for o in itertools.product(aalpha, repeat=n):
-                add_sall([5001, 5002], [{5001: list(o), 5002: [('D', b"q")]}, {5001: [('D', b"z")], 5002: [('D', b"r"), ('X',)]}, {}],
-                         "server-all-exh")
-        for _ in range(ctx.n(300, 3000)):
-            cas = [5001, 5002, 5003][:rng.randint(1, 3)]
-            passes = [{ca: [('D', bytes(rng.randint(32, 126) for _ in range(rng.randint(1, 4)))) if r[0] == 'D' else r
-                            for r in rnd_rorc(rng, pclose=0.2)] for ca in cas if rng.random() < 0.8}
-                      for _ in range(rng.randint(1, 6))]
-            add_sall(cas, passes, "server-all-rnd")
+    aalpha = [('D', b"a"), ('D', b"bc"), ('N',), ('X',)]
+    for n in range(0, ctx.n(3, 4) + 1):
+        for o in itertools.product(aalpha, repeat=n):
+            # 5001 connects first; 5002 connects (and has already sent) in the second pass, 5003 in the third
+            add_sall([5001, 5002, 5003],
+                     [([5001], {5001: list(o)}),
+                      ([5002], {5001: [('D', b"z")], 5002: [('D', b"q")]}),
+                      ([5003], {5002: [('D', b"r"), ('X',)], 5003: [('D', b"s")]}),
+                      ([], {5003: [('D', b"t")]})],
+                     "server-all-exh")
+    for _ in range(ctx.n(400, 4000)):
+        cas = [5001, 5002, 5003, 5004][:rng.randint(1, 4)]
+        npass = rng.randint(1, 6)
+        arrive = sorted(rng.randint(0, max(0, npass - 2)) for _ in cas)     # arrival pass, in cas order
+        passes = []
+        for i in range(npass):
+            arr = [ca for ca, a in zip(cas, arrive) if a == i]
+            here = [ca for ca, a in zip(cas, arrive) if a <= i]
+            passes.append((arr, {ca: [('D', bytes(rng.randint(32, 126) for _ in range(rng.randint(1, 4)))) if r[0] == 'D' else r
+                                      for r in rnd_rorc(rng, pclose=0.25)] for ca in here if rng.random() < 0.8}))
+        add_sall(cas, passes, "server-all-rnd")
 
     # ---------------- composite serviceAll (client) ----------------
     def add_call(passes, kind):
